@@ -12,7 +12,7 @@ import srvfam, vlib
 def run(ctx):
     thorough = ctx.tier == 'thorough'
     cfg = 'H2Server_c08_t.cfg' if thorough else 'H2Server_c08_q.cfg'
-    hists = srvfam.gen_from_model(ctx, cfg)
+    hists = srvfam.gen_from_model(ctx, cfg, workers=None if thorough else 1)   # 1 worker: deterministic BFS, reproducible sampling
     budget = 30000 if thorough else 1500
     ctx.rng.shuffle(hists)
     # keep every distinct (last event, length) class at least once, then fill up randomly
